@@ -39,9 +39,14 @@ TABLE = {
                                                                  ("stats_funcs", {"stats": ["min", "sum"]}), SEED]),
     "hotspots": ("focal", {}, [("kernel", {"kernel": "box3"}), SEED]),
     # ---- zonal
-    "zonal_stats": ("zonal", {}, [("zone_ids", {"zone_ids": [1, 3]}), ("stats_funcs", {"stats_funcs": ["sum", "count"]}),
+    # first a user DICT whose keys collide with built-in names (and whose functions differ): every later call of the
+    # schedule - default list, explicit lists with 'max' - uses the built-in names after it
+    "zonal_stats": ("zonal", {}, [("stats_funcs_dict", {"stats_dict": "custom"}),
+                                  ("zone_ids", {"zone_ids": [1, 3]}), ("stats_funcs", {"stats_funcs": ["max", "sum", "count"]}),
                                   ("nodata_values", {"nodata_values": 10}), ("return_type", {"return_type": "xarray.DataArray"}),
-                                  ("=stats_funcs", {"stats_funcs": ["mean", "max", "min", "sum", "std", "var", "count"]}), SEED]),
+                                  ("=stats_funcs", {"stats_funcs": ["mean", "max", "min", "sum", "std", "var", "count"]}), SEED,
+                                  # a user dict whose keys collide with built-in names (NumPy only), and the built-in names after it
+                                  ]),
     "zonal_crosstab": ("zonal", {}, [("zone_ids", {"zone_ids": [0, 3]}), ("cat_ids", {"cat_ids": [10, 30]}),
                                      ("agg", {"agg": "percentage"}), ("nodata_values", {"nodata_values": 10}), SEED]),
     "zonal_apply": ("zonal", {}, [("func", {"func": "plus1"}), ("nodata", {"nodata": 2}), SEED]),
@@ -296,6 +301,14 @@ def shared_alphabet():
                       ("ok2", {"sy": 5, "sx": 0, "gy": 0, "gx": 2, "barriers": [9]}),
                       ("open", {"sy": 0, "sx": 0, "gy": 5, "gx": 6})):
         add("a_star_search", "sh_" + p, "f8", dict(params, _kind="maze"), "S")
+    # LAZY Dask results BUILT before other calls of the same function with other parameters and COMPUTED when the session
+    # ends (the seeded generators first of all): lazyA (deferred), then afterB (Dask) and afterC (NumPy) with other parameters
+    for f, p1, p2 in (("perlin", {"seed": 11}, {"seed": 12}), ("generate_terrain", {"seed": 3}, {"seed": 4}),
+                      ("focal_mean", {"passes": 1}, {"passes": 2}), ("proximity", {"max_distance": 4.5}, {"target_values": [3]})):
+        add(f, "lazyA", "f8d", p1, None, backend="dask", defer=True)
+        if f != "generate_terrain":
+            add(f, "afterB", "f8d", p2, None, backend="dask")
+        add(f, "afterC", "f8", p2, None)
     return out
 
 
@@ -309,13 +322,15 @@ def shared_sessions(al):
          "get_dataarray_resolution|shU|f8", "calc_cellsize|shU|f8"]
     s = ["a_star_search|sh_ok1|f8", "a_star_search|sh_fail|f8", "a_star_search|sh_ok1|f8", "a_star_search|sh_ok2|f8",
          "a_star_search|sh_open|f8", "a_star_search|sh_fail|f8", "a_star_search|sh_ok2|f8", "a_star_search|sh_open|f8"]
-    return [[by[c] for c in k + u + s]]
+    lazy = [e["c"] for e in al if e["p"] == "lazyA"] + [e["c"] for e in al if e["p"] in ("afterB", "afterC")]
+    return [[by[c] for c in lazy + k + u + s if c in by]]
 
 
 def unshared(e, n):
     """the same call with freshly built objects (reference)"""
     r = dict(e)
     r.pop("share", None)
+    r.pop("defer", None)                 # the reference computes at once
     if r.get("shared_kernel"):
         r["shared_kernel"] = dict(r["shared_kernel"], id="K#%d" % n)
     return r
